@@ -1,12 +1,16 @@
 import PsyVerif.Model.Proto
-import PsyVerif.Model.Invoke
+import PsyVerif.Model.InvokeFile
 open Proto
 
-/-! input: one invoke `((slot ...) (slot ...) ...)`, one inner list per kernel call,
-slot = `(role kind x y)` with role 0 data / 1 extent / 2 direction / 3 qr, kind 0 literal (x = text id) /
-1 variable (x = text id, y = root id) / 2 direction constant (x = id).
-output: `refused` or `((actual texts) ((root k) ...dummies) ((karg ...) ...))` with
-karg = `(L v)` | `(S root k)` | `(D c)`. -/
+/-! input: one algorithm file `(decl decl ...)`, decl = `(label heads body internals)` with
+label `(0)` none | `(1 l)` plain | `(2 l)` "invoke_"+l | `(3 i)` "invoke_<i>" | `(4 i k)` "invoke_<i>_<k>" | `(5 l)`;
+heads `(h ...)`: 0 = built-in, n > 0 = user kernel with type-name id n;
+body `((slot ...) ...)`, slot = `(role kind x y cls)`: role 0 data / 1 extent / 2 direction / 3 qr, kind 0 literal
+(x = text id) / 1 variable (x = text id, y = root id) / 2 direction constant (x = id);
+internals `((proxied text ids) ((root k proxyroot) ...) (space roots))`.
+output: `refused` | `crashed` | `(inv ...)`, inv =
+`(nameA nameB (actuals) (actualsB) ((root k) ...dummies) ((karg ...) ...) ((root k) ...clashes))`,
+name = `(L l)` | `(I i)` | `(K i k)` | `(O l)`, karg = `(L v)` | `(S root k)` | `(D c)`. -/
 
 def roleOf : Nat → C24.Role
   | 0 => .data
@@ -16,24 +20,70 @@ def roleOf : Nat → C24.Role
 
 def slotOf (s : Sexp) : Option C24.Slot :=
   match s.natList with
-  | [r, 0, x, _] => some ⟨roleOf r, .lit x⟩
-  | [r, 1, x, y] => some ⟨roleOf r, .var x y⟩
-  | [r, 2, x, _] => some ⟨roleOf r, .dirconst x⟩
+  | [r, 0, x, _, c] => some ⟨roleOf r, .lit x, c⟩
+  | [r, 1, x, y, c] => some ⟨roleOf r, .var x y, c⟩
+  | [r, 2, x, _, c] => some ⟨roleOf r, .dirconst x, c⟩
+  | _ => none
+
+def labelOf (s : Sexp) : Option C24.LabelForm :=
+  match s.natList with
+  | [1, l] => some (.plain l)
+  | [2, l] => some (.pre l)
+  | [3, i] => some (.preIdx i)
+  | [4, i, k] => some (.preIdxKern i k)
+  | [5, l] => some (.preDigits l)
+  | _ => none
+
+def internalsOf (s : Sexp) : C24.Internals :=
+  match s.items with
+  | [p, t, sp] =>
+    { proxied := p.natList,
+      proxyRoot := t.items.filterMap fun e => match e.natList with
+        | [r, k, r'] => some ((r, k), r')
+        | _ => none,
+      spaceRoots := sp.natList }
+  | _ => { proxied := [], proxyRoot := [], spaceRoots := [] }
+
+def declOf (s : Sexp) : Option (C24.InvokeDecl × C24.Internals) :=
+  match s.items with
+  | [lab, heads, body, ints] =>
+    some ({ label := labelOf lab,
+            heads := heads.natList.map fun h => if h = 0 then none else some h,
+            body := body.items.map fun k => k.items.filterMap slotOf }, internalsOf ints)
   | _ => none
 
 def showName (n : C24.Name) : String := s!"({n.1} {n.2})"
+
+def showRName : C24.RName → String
+  | .lab l => s!"(L {l})"
+  | .idx i => s!"(I {i})"
+  | .idxKern i k => s!"(K {i} {k})"
+  | .other l => s!"(O {l})"
 
 def showKArg : C24.KArg → String
   | .lit v => s!"(L {v})"
   | .sym n => s!"(S {n.1} {n.2})"
   | .dirconst c => s!"(D {c})"
 
+def showInvoke (idx : Nat) (d : C24.InvokeDecl) (I : C24.Internals) : String :=
+  match C24.generate [] d.body with
+  | .ok o =>
+    let st := C24.tableOf [] d.body
+    "(" ++ showRName (C24.routineName idx d) ++ " " ++ showRName (C24.routineNameB idx d) ++ " "
+      ++ showList toString o.actuals ++ " " ++ showList toString (C24.actualsB d.body) ++ " "
+      ++ showList showName o.dummies ++ " " ++ showList (showList showKArg) o.kcalls ++ " "
+      ++ showList showName (C24.clashes st d.body I) ++ ")"
+  | _ => "()"
+
 def handle (s : Sexp) : String :=
-  let inv : C24.Invoke := s.items.map fun k => k.items.filterMap slotOf
-  match C24.generate [] inv with
-  | none => "refused"
-  | some o =>
-    "(" ++ showList toString o.actuals ++ " " ++ showList showName o.dummies ++ " "
-      ++ showList (showList showKArg) o.kcalls ++ ")"
+  let ds := s.items.filterMap declOf
+  match C24.genFile [] (ds.map Prod.fst) with
+  | .refused => "refused"
+  | .crashed => "crashed"
+  | .ok _ =>
+    let rec go (i : Nat) : List (C24.InvokeDecl × C24.Internals) → List String
+      | [] => []
+      | (d, I) :: rest => showInvoke i d I :: go (i + 1) rest
+    "(" ++ " ".intercalate (go 0 ds) ++ ")"
 
 def main : IO Unit := run handle
